@@ -66,6 +66,38 @@ def hlp(x):
     LOG.append(("hlp", _norm(x)))
     return x + 1
 
+def __sub__(site, k):
+    for i in range(k):
+        r = yield (site, i)
+        LOG.append(("sub", site, i, _norm(r)))
+    return site
+
+def __yf_T__(fn, it):
+    """Twin of `yield from it` inside fn: every delegated value is a #yield of fn, every value
+    sent back (next/send) a #receive of fn."""
+    it = iter(it)
+    try:
+        v = next(it)
+    except StopIteration as e:
+        return e.value
+    while True:
+        try:
+            s = yield __m__(fn, '#yield', v)
+        except GeneratorExit:
+            it.close()
+            raise
+        except BaseException as e:
+            try:
+                v = it.throw(e)
+            except StopIteration as e2:
+                return e2.value
+            continue
+        s = __m__(fn, '#receive', s)
+        try:
+            v = next(it) if s is None else it.send(s)
+        except StopIteration as e:
+            return e.value
+
 def __run_co__(co):
     try:
         co.send(None)
@@ -1017,6 +1049,17 @@ class Gen:
     def s_yield(self, em, ctx, depth):
         fn = ctx["fn"]
         r = self.rnd.random()
+        if self.ok("yield_from") and self.rnd.random() < 0.2:
+            # delegation to a sub-generator (which logs what it is sent)
+            self.feat("yield_from")
+            nm = self.rnd.choice(LOCALS)
+            n = self.nsite()
+            k = self.rnd.randint(0, 2)
+            em.ponly(f"{nm} = yield from __sub__({n}, {k})")
+            em.tonly(f"{nm} = yield from __yf_T__({fn!r}, __sub__({n}, {k}))")
+            self.bind_hook(em, fn, nm)
+            ctx["bound"].add(nm)
+            return
         if r < 0.9:
             p, t = self.expr(ctx, 1)
         if r < 0.5:
@@ -1192,6 +1235,9 @@ def gen_script(rnd, n=6):
             ops.append(["send", rnd.randint(1, 9)])
         elif r < 0.9:
             ops.append(["throw", rnd.choice(["ValueError", "KeyError", "GeneratorExit"])])
+            if rnd.random() < 0.3:
+                # legacy signatures throw(type, value) / throw(type, (args...))
+                ops[-1].append(rnd.choice(["value", "tuple"]))
         else:
             ops.append(["close"])
     if rnd.random() < 0.5:
